@@ -86,7 +86,7 @@ def _work(task):
 
 def run_e2(res, cfg, src_names, instances, builder, wrappers=(), defs=(), replay_srcs=None, exec_opts=None, exec_attrs=None,
            max_paths=200000, time_budget=None, validate_every=1, nproc=None, tol=1e-9, sigmap=None, log=None, group="",
-           tolerate=()):
+           tolerate=(), droppable=False):
     """instances: list of picklable params; builder(params) -> (name, harness(ex))."""
     log = log or (lambda s: sys.stderr.write(s + "\n"))
     mods = build.load_modules(cfg, src_names, defs=defs, wrappers=wrappers)
@@ -135,7 +135,10 @@ def run_e2(res, cfg, src_names, instances, builder, wrappers=(), defs=(), replay
         for fn, lab in o["covered"]:
             covered.setdefault(fn, set()).add(lab)
         verdict = "holds"
-        if sm["status"] != "exhausted":
+        if sm["status"] != "exhausted" and droppable:
+            verdict = "partial"
+            res.dropped.append({"instance": o["name"], "reason": "exploration stopped by the time budget after %d paths (%d queued)" % (sm["paths"], sm["remaining"])})
+        elif sm["status"] != "exhausted":
             verdict = "bound-hit"
             res.error("%s instance %s: exploration not exhausted (%s after %d paths)" % (group, o["name"], sm["status"], sm["paths"]))
         for f in o["findings"]:
@@ -160,6 +163,9 @@ def run_e2(res, cfg, src_names, instances, builder, wrappers=(), defs=(), replay
                 else:
                     verdict = "unreproduced"
                     res.error("%s instance %s: finding %s/%s not confirmed natively: %s" % (group, o["name"], f["kind"], f["label"], f["how"]))
+            elif droppable and f["kind"] == "UNKNOWN":
+                res.dropped.append({"instance": o["name"], "reason": "solver unknown within the time limit", "query": f["detail"][:160]})
+                verdict = "holds-except-dropped" if verdict == "holds" else verdict
             else:
                 verdict = "inconclusive"
                 res.error("%s instance %s: %s %s %s" % (group, o["name"], f["kind"], f["label"], f["detail"][:300]))
